@@ -79,6 +79,24 @@ func feesCase(app *fx.App, tr *fx.Trace, r *fx.Rng) {
 	}
 	tr.Reset(fx.M{"kind": "fees", "denoms": denoms, "bal": bal})
 	for k := 0; k < 6; k++ {
+		if r.Chance(1, 3) {
+			// the owner moves a data source to another treasury and/or changes its fee (real MsgEditDataSource); from now
+			// on "its treasury" and "its fee" are what the accepted edit says
+			i := r.Intn(len(dss))
+			fee := dss[i].fee
+			if r.Bool() {
+				fee = []int64{int64(r.PickInt(0, 1, 7, 100)), int64(r.PickInt(0, 0, 3))}
+			}
+			tre := r.PickInt(1, 2, 3, 0)
+			em := oracletypes.NewMsgEditDataSource(dss[i].id, oracletypes.DoNotModify, oracletypes.DoNotModify, oracletypes.DoNotModifyBytes, coinsOf(fee),
+				accts[tre].Address, bandtesting.Owner.Address, bandtesting.Owner.Address)
+			if fx.Try(em.ValidateBasic) == "" {
+				if e := fx.Atomically(ctx, func(c sdk.Context) error { _, err := ms.EditDataSource(c, em); return err }); e == "" {
+					dss[i].fee, dss[i].treasury = fee, tre
+					tr.Tag("data-source-edited")
+				}
+			}
+		}
 		ask := uint64(r.Range(1, 3))
 		nraw := r.Range(1, 4)
 		var srcs []fx.M
